@@ -108,6 +108,24 @@ class FuncFacts:
                 exprs = [st]
             for e in exprs:
                 self._classify(cn, st, e)
+        # removal by index (`del table[i]`, `table.pop(i)`) of the entry found together with that index is the removal of
+        # that entry: normalise the event to carry the entry in .value and the index in .index
+        for e in self.events:
+            if e.kind == "table_remove":
+                if e.how in ("del", "pop") and e.value is not None:
+                    idx = e.value
+                    ent = next((nm for nm, info in self.entry_names.items() if info[0] == "elem" and info[2] is not None and norm(info[2]) == norm(idx)
+                                and info[1] in ("next", "subscript")), None)
+                    e.index = idx
+                    if ent is not None:
+                        e.value = N(ent)
+                        e.by_index = False
+                    else:
+                        e.by_index = True
+                else:
+                    e.by_index = False
+                    info = self.entry_names.get(e.value.id) if isinstance(e.value, ast.Name) else None
+                    e.index = info[2] if info and info[0] == "elem" else None
         self.events.sort(key=lambda e: (getattr(e.stmt, "lineno", 0), getattr(e.call, "col_offset", 0) if e.call is not None else 0))
 
     def _classify(self, cn, st, root):
@@ -214,6 +232,20 @@ class FuncFacts:
 
     def ev(self, *kinds):
         return [e for e in self.events if e.kind in kinds]
+
+    def origins(self, name, _seen=None):
+        """leaf defining expressions of a local, following plain name-to-name copies (all definitions, flow-insensitive)"""
+        seen = _seen if _seen is not None else set()
+        if name in seen:
+            return []
+        seen.add(name)
+        out = []
+        for v, st in self.defs.get(name, []):
+            if isinstance(v, ast.Name) and v.id in self.defs:
+                out += self.origins(v.id, seen)
+            else:
+                out.append((v, st))
+        return out
 
     def single_def(self, name):
         d = self.defs.get(name, [])
